@@ -3,6 +3,7 @@ package rules
 import (
 	"go/ast"
 	"go/token"
+	"go/types"
 	"sort"
 	"strings"
 
@@ -509,6 +510,34 @@ func c13count(c *core.Ctx) {
 		"stateExpSignFound":          {digit: "s.expBegin = s.index"},
 		"stateExpNumberFound":        {},
 	}
+	// "the exponent has begun" may be kept in expBegin alone (0 = not yet) or also in boolean fields of
+	// the scanner next to it: every boolean field other than the sign and the finished flag is set
+	// together with expBegin
+	var flags []string
+	if nt := c.P.NamedType("json", "scanner"); nt != nil {
+		if st, ok := nt.Underlying().(*types.Struct); ok {
+			for i := 0; i < st.NumFields(); i++ {
+				f := st.Field(i)
+				if b, isB := f.Type().Underlying().(*types.Basic); isB && b.Kind() == types.Bool && f.Name() != "negative" && f.Name() != "finished" {
+					flags = append(flags, "s."+f.Name())
+				}
+			}
+		}
+	}
+	begunEnv := func(env map[string]int64, begun int64) {
+		env["s.expBegin"] = begun
+		for _, f := range flags {
+			env[f] = b2i(begun != 0)
+		}
+	}
+	isFlagSet := func(effect string) bool {
+		for _, f := range flags {
+			if effect == f+" = true" {
+				return true
+			}
+		}
+		return false
+	}
 	var names []string
 	for n := range states {
 		names = append(names, n)
@@ -529,7 +558,8 @@ func c13count(c *core.Ctx) {
 		bad := ""
 		for b := int64(0); b < 256 && bad == ""; b++ {
 			for _, begun := range []int64{0, 7} {
-				e := &miniEval{pk: d.Pkg, env: map[string]int64{param: b, "s.expBegin": begun, "s.index": 9}}
+				e := &miniEval{pk: d.Pkg, env: map[string]int64{param: b, "s.index": 9}}
+				begunEnv(e.env, begun)
 				st, rets := e.run(d.Decl.Body.List)
 				if e.unknown != "" {
 					bad = "undecided: " + e.unknown
@@ -541,6 +571,9 @@ func c13count(c *core.Ctx) {
 				for _, x := range e.effects {
 					if strings.HasPrefix(x, "s.stateFn") || strings.HasPrefix(x, "s.finished") {
 						continue
+					}
+					if isFlagSet(x) && begun == 0 {
+						continue // the flag that goes with expBegin
 					}
 					eff = append(eff, x)
 				}
@@ -574,7 +607,8 @@ func c13count(c *core.Ctx) {
 		bad := ""
 		for _, begin := range []int64{0, 3} {
 			for _, exp := range []int64{-5, 0, 7} {
-				e := &miniEval{pk: d.Pkg, env: map[string]int64{"s.expBegin": begin, "nil": 0}}
+				e := &miniEval{pk: d.Pkg, env: map[string]int64{"nil": 0}}
+				begunEnv(e.env, begin)
 				e.hook = func(x ast.Expr) (int64, bool) {
 					switch y := x.(type) {
 					case *ast.Ident:
